@@ -287,6 +287,35 @@ def r01_6_shared(repo: Repo, rep: Report):
 
     for f in (r08_2_decode_siblings, r08_3_load_store_agreement, r08_4_transient, r19_1_insn_len, r19_2_scanner_decoder, r19_4_stop_beyond_end, r19_8_code_slice_zero_pad):
         f(repo, rep)
+    # the precomputed keccak tables decide which slot a literal location denotes (C08 R08.1); a state shared between
+    # sibling paths reports values another path computed (C20 R20.1)
+    from hsa.rules.c08 import r08_1_precomputed_tables
+    from hsa.rules.c20 import r20_1_fork_copies
+
+    r08_1_precomputed_tables(repo, rep)
+    r20_1_fork_copies(repo, rep)
 
 
-RULES = [r01_1_dispatch_totality, r01_2_3_arm_semantics, r01_4_modelling_obligations, r01_5_halting, r01_6_shared]
+def r01_7_concretized_window(repo: Repo, rep: Report):
+    rep.rule("R01.7", "a chunk with substituted values covers the same window of the same data (start, length) as the chunk it replaces")
+    m, fn = repo.fn("bytevec.Chunk.concretize")
+    rets = [r for r in body_walk(fn) if isinstance(r, ast.Return) and r.value is not None]
+    if not rets:
+        raise AnalysisError("Chunk.concretize: no return found")
+
+    def leaves(e):
+        return leaves(e.body) + leaves(e.orelse) if isinstance(e, ast.IfExp) else [e]
+
+    n = 0
+    for r in rets:
+        for v in leaves(r.value):
+            n += 1
+            if src(v) == "self":
+                rep.ok("R01.7", m, r, "concretize: returns self (nothing substituted)")
+                continue
+            ok = isinstance(v, ast.Call) and call_name(v) in ("ConcreteChunk", "SymbolicChunk") and [src(a) for a in v.args[1:]] == ["self.start", "self.length"] and not v.keywords
+            rep.check("R01.7", ok, m, v, f"concretize: returns {src(v)[:70]}", "the substituted chunk is not built over (self.start, self.length): CALLDATACOPY / memory reads of a concretized value return fewer or shifted bytes and leave stale data")
+    rep.floor("R01.7", 3, "return values of Chunk.concretize")
+
+
+RULES = [r01_1_dispatch_totality, r01_2_3_arm_semantics, r01_4_modelling_obligations, r01_5_halting, r01_6_shared, r01_7_concretized_window]
